@@ -24,8 +24,12 @@ RULES = {
     "R6": "lock order: the may-hold-while-acquiring graph over the writer's locks is acyclic",
     "R7": "executor shutdown: every ThreadPoolExecutor is a context manager or is shut down with wait=True on the "
     "normal path and in a BaseException handler that re-raises",
+    "R8": "once per tensor, in every writer: each strategy of the external-data writer (serial loop, worker function of the "
+    "parallel writer) invokes the progress callback unconditionally in its per-tensor unit, and the units range over the whole "
+    "tensor list - the loop has no skip before the invocation, the comprehension / loop that submits the worker has no filter - "
+    "so a tensor the fast path considers uninteresting (zero bytes) is still reported, as the serial writer does",
 }
-FLOORS = {"R1": 6, "R2": 3, "R3": 1, "R4": 2, "R5": 3, "R6": 1, "R7": 2}
+FLOORS = {"R1": 6, "R2": 3, "R3": 1, "R4": 2, "R5": 3, "R6": 1, "R7": 2, "R8": 4}
 EXPLANATION = (
     "Lock-set analysis over the external-data writer: which fields are touched under which `with`, pairing of "
     "acquire/release through try/finally, lock context of every call path from submitted functions to tensor "
@@ -475,7 +479,75 @@ def rule_r7(ctx):
     ctx.require(n >= 2, "ThreadPoolExecutor sites not found")
 
 
+def rule_r8(ctx):
+    m = ctx.repo.module(ED)
+    sites = [(f, c) for f in m.all_funcs if not isinstance(f.node, ast.Lambda) for c in calls_in(f)
+             if isinstance(c.func, ast.Attribute) and c.func.attr == "_invoke_callback"]
+    ctx.require(len(sites) >= 2, "callback invocations of the external-data writers not found")
+    for f, c in sites:
+        cfg = CFG(f.node)
+        if f.parent is not None:
+            # worker function: the invocation lies on every path through it …
+            cn = cfg.nodes_containing(c)
+            ok = bool(cn) and cfg.all_paths_through(cfg.entry, {cn[0].id}, {cfg.exit.id}, exc=False)
+            ctx.check("R8", f"{f.local}: the callback is invoked on every path through the per-tensor worker", ok, f, c,
+                      "the worker returns on some path without invoking the progress callback: that tensor is never reported",
+                      how="must-pass-through query on the worker's CFG")
+            # … and the worker is submitted for every tensor
+            parent = f.parent
+            subs = [x for x in calls_in(parent) if isinstance(x.func, ast.Attribute) and x.func.attr in ("submit", "map") and x.args
+                    and isinstance(x.args[0], ast.Name) and x.args[0].id == f.name]
+            ctx.require(bool(subs), f"{parent.local}: submission of {f.name} not found")
+            for sc in subs:
+                flt, rng = None, None
+                p_ = getattr(sc, "_parent", None)
+                while p_ is not None and p_ is not parent.node:
+                    if isinstance(p_, (ast.ListComp, ast.GeneratorExp, ast.SetComp)):
+                        rng = rng or p_.generators[0].iter
+                        if any(g.ifs for g in p_.generators):
+                            flt = p_
+                    elif isinstance(p_, ast.For):
+                        rng = rng or p_.iter
+                        if any(isinstance(x, (ast.Continue, ast.Break)) for x in ast.walk(p_)):
+                            flt = p_
+                    elif isinstance(p_, ast.If):
+                        flt = p_
+                    p_ = getattr(p_, "_parent", None)
+                if sc.func.attr == "map" and len(sc.args) > 1:
+                    rng = sc.args[1]
+                whole = rng is not None and any(isinstance(x, ast.Attribute) and x.attr in ("_tensors", "_external_data_infos") for x in ast.walk(rng))
+                ctx.check("R8", f"{parent.local}: {f.name} is submitted for every tensor", flt is None and whole, parent, flt if flt is not None else sc,
+                          f"the worker that invokes the callback is submitted only for some tensors (`{norm(flt)[:90] if flt is not None else norm(sc)}`): "
+                          "the progress callback is not called for the others, although the serial writer calls it for every tensor",
+                          how="the submitting comprehension / loop has no filter and ranges over the writer's tensor list",
+                          construct="worker submitted for a filtered tensor list")
+        else:
+            loops = [a for a in _anc_nodes(c, f.node) if isinstance(a, (ast.For, ast.While))]
+            ok = bool(loops)
+            if ok:
+                lp = loops[0]
+                st = c
+                while getattr(st, "_parent", None) is not lp and getattr(st, "_parent", None) is not None:
+                    st = st._parent
+                direct = st in lp.body
+                before = lp.body[: lp.body.index(st)] if direct else []
+                skip = any(isinstance(x, (ast.Continue, ast.Break, ast.Return)) for b in before for x in ast.walk(b))
+                whole = any(isinstance(x, ast.Attribute) and x.attr in ("_tensors", "_external_data_infos") for x in ast.walk(lp.iter))
+                ok = direct and isinstance(st, ast.Expr) and not skip and whole
+            ctx.check("R8", f"{f.local}: the callback is invoked for every tensor of the loop", ok, f, c,
+                      "the per-tensor loop can skip the progress callback (a condition, `continue` or a partial range before it)",
+                      how="the invocation is an unconditional statement of a loop over the writer's tensor list, nothing skips before it")
+
+
+def _anc_nodes(node, stop):
+    p = getattr(node, "_parent", None)
+    while p is not None and p is not stop:
+        yield p
+        p = getattr(p, "_parent", None)
+
+
 def run(ctx):
+    rule_r8(ctx)
     _collect_lock_names(ctx)
     ctx.tables["lock names (by construction)"] = sorted(_LOCK_NAMES)
     rule_r1_r2(ctx)
